@@ -94,6 +94,15 @@ fn flags_ok(flags: &str, s: &str) -> bool {
         // the single-line form of 25P is an account directly followed by the BIC within one 35x line
         return false;
     }
+    if flags.contains("glued35") && !s.contains('\n') {
+        // the glued form is read with the longer BIC first (documented by the field's parser comments): a content that is
+        // nothing but an 11-character BIC has no account in that reading
+        let cs: Vec<char> = s.chars().collect();
+        let is_bic = |b: &[char]| (b.len() == 8 || b.len() == 11) && b[..6].iter().all(|c| c.is_ascii_uppercase()) && b[6..].iter().all(|c| c.is_ascii_uppercase() || c.is_ascii_digit());
+        if cs.len() >= 11 && is_bic(&cs[cs.len() - 11..]) && cs.len() == 11 {
+            return false;
+        }
+    }
     if flags.contains("pidfirst") && s.starts_with('/') {
         // a content that starts with '/' starts with the party identifier: it is never the location
         let first = s.split('\n').next().unwrap_or("");
@@ -316,12 +325,12 @@ pub fn run(o: &Opts) -> Report {
                         match again {
                             Outcome::Ok { ser: ser2, json: json2, .. } => {
                                 if canon(&json2) != canon(json) {
-                                    rep.fail(&format!("C02|value_changed|{}|{}", sp.name, cls), wit("re-parsing the serialisation gives a different value", json!({"ser": ser, "first": json, "second": json2})));
+                                    rep.fail(&format!("C02|value_changed|{}|{}", sp.name, if crate::fmt::beyond_f64(&c) { "f64-precision" } else { cls.as_str() }), wit("re-parsing the serialisation gives a different value", json!({"ser": ser, "first": json, "second": json2})));
                                 } else if &ser2 != ser {
                                     rep.fail(&format!("C02|not_fixed_point|{}|{}", sp.name, cls), wit("second serialisation differs", json!({"ser": ser, "ser2": ser2})));
                                 }
                             }
-                            Outcome::Err => rep.fail(&format!("C02|reparse_rejected|{}|{}", sp.name, cls), wit("the serialisation of an accepted content is rejected", json!({"ser": ser}))),
+                            Outcome::Err => rep.fail(&format!("C02|reparse_rejected|{}|{}", sp.name, if crate::fmt::beyond_f64(&c) { "f64-precision" } else { cls.as_str() }), wit("the serialisation of an accepted content is rejected", json!({"ser": ser}))),
                             Outcome::Panic => rep.fail(&format!("C02|reparse_panicked|{}|{}", sp.name, cls), wit("re-parsing the serialisation panics", json!({"ser": ser}))),
                         }
                     }
